@@ -74,6 +74,7 @@ class World:
         n = self.node
         n.idle_timeout, n.dwa_timeout, n.cer_timeout, n.cea_timeout = nc["idle"], nc["dwa"], nc["cer"], nc["cea"]
         n.wakeup_interval = nc["wakeup"]
+        n.vendor_id, n.product_name = 99001, "verif-node"      # (nodetrace.NODE_VENDOR / NODE_PRODUCT)
         n.retransmit_queue_size = nc["retx"]
         n.validate_received_request_avps = nc["validate"]
         self.peers = {}
@@ -374,8 +375,8 @@ def make_app(world, a):
                     self.submit(ans)
                     return None
                 return ans
-            if mode == "slow":
-                simrt.time_shim.sleep(3)
+            if mode in ("slow", "slow7"):       # 3 s; 7 s is longer than the 5 s a request waits for a thread slot
+                simrt.time_shim.sleep(3 if mode == "slow" else 7)
                 ans = self.generate_answer(message, result_code=2001)
                 if a["kind"] == "basic":
                     self.submit(ans)
